@@ -68,7 +68,7 @@ CHECKS["C02"] = dict(
     assumptions=["DiffContent (byte comparison of real files) is outside the claim", "edit histories are reduced to arbitrary (old,new) pairs: the diff keeps no state between runs"],
     obligations=[
         ob("VH_C02_samefile", {}, covers=["identical", "different"], bounds="all field values; linknames of 0..2 bytes"),
-        ob("VH_C02_resync", dict(NONE=0), covers=["differ-metadata", "unchanged"], bounds="model FS: first transfer, one of 9 mutations of the source (none, rewrite same/other size, touch, chmod to a symbolic mode, chown to a symbolic uid, delete, file->dir, chmod of a directory), second transfer", max_steps=5000000),
+        ob("VH_C02_resync", dict(NONE=0), covers=["differ-metadata", "unchanged", "listing-name-file"], bounds="model FS: source {d, d/f, e, l, optionally a root file named .fsutil-metadata}; first transfer, one of 9 mutations of the source (none, rewrite same/other size, touch, chmod to a symbolic mode, chown to a symbolic uid, delete, file->dir, chmod of a directory), second transfer", max_steps=5000000),
         ob("VH_C02_resync", dict(NONE=1), covers=["differ-none"], bounds="the same with differencing disabled", max_steps=5000000),
     ],
 )
@@ -122,7 +122,7 @@ UTIL = MOD + "/util"
 
 CHECKS["C20"] = dict(
     level_text="Within the bounds the solver shows for the hand-written (vtproto) codec: encode/decode round trip with full-width numeric fields, byte-for-byte equality with an independent proto3 reference encoder, and for every input byte string up to N bytes that decoding returns without panic or out-of-range access, allocates no more than the input, and never aliases the input; and for the length-prefixed stream that packets are read back identical under every fragmentation.",
-    level_note="Bounds: one field at a time over all its varint size classes; all fields set together with pairs of numeric fields symbolic over the {0, one-byte, maximal} classes; strings <=2 bytes; <=1 xattr; decoder inputs of <=3 (quick) / <=5 (thorough) arbitrary bytes; two packets per stream with <=2 data bytes. The reflection-based protobuf runtime is not encoded: interoperability with it rests on the reference encoder being proto3-conformant. math/bits.Len* is an engine intrinsic (threshold chain). " + BASE_TRUST,
+    level_note="Bounds: one field at a time over all its varint size classes; all fields set together with pairs of numeric fields symbolic over the {0, one-byte, maximal} classes; strings <=2 symbolic bytes, plus pattern strings at the varint length boundaries (around 128 and 16384); <=1 xattr; decoder inputs of <=3 (quick) / <=5 (thorough) arbitrary bytes; two packets per stream with <=2 data bytes. The reflection-based protobuf runtime is not encoded: interoperability with it rests on the reference encoder being proto3-conformant. math/bits.Len* is an engine intrinsic (threshold chain). " + BASE_TRUST,
     assumptions=["google.golang.org/protobuf runtime, UnmarshalVTUnsafe and allocation driven by a hostile 4-byte frame length in RecvMsg are outside the claim",
                  "sync.Pool is modelled as LIFO reuse (a Put buffer is handed out again by the next Get)"],
     obligations=
@@ -133,6 +133,11 @@ CHECKS["C20"] = dict(
          ob("VH_C20_stat_all", dict(L=1, G=1), T, pkg=TYPES, covers=["done"], bounds="all Stat fields set; Uid and Gid symbolic"),
          ob("VH_C20_stat_all", dict(L=1, G=2), T, pkg=TYPES, covers=["done"], bounds="all Stat fields set; ModTime and Devmajor symbolic"),
          ob("VH_C20_stat_all", dict(L=1, G=3), T, pkg=TYPES, covers=["done"], bounds="all Stat fields set; Devminor and Mode symbolic"),
+         ob("VH_C20_stat_lengths", dict(F=10), pkg=TYPES, covers=["done"], bounds="one xattr, key and value lengths each from {0,1,2,24,60,100,118..130} (19x19), pattern contents; also nested in a packet"),
+         ob("VH_C20_stat_lengths", dict(F=10, BIG=1), pkg=TYPES, covers=["done"], bounds="one xattr, key length from the small set, value length from {16370..16386} (the 3-byte varint boundary)"),
+         ob("VH_C20_stat_lengths", dict(F=1), pkg=TYPES, covers=["done"], bounds="path length from the boundary set"),
+         ob("VH_C20_stat_lengths", dict(F=7), pkg=TYPES, covers=["done"], bounds="link name length from the boundary set"),
+         ob("VH_C20_stat_lengths", dict(F=1, BIG=1), pkg=TYPES, covers=["done"], bounds="path length around 16384"),
          ob("VH_C20_packet", dict(D=1), Q, pkg=TYPES, covers=["done"], bounds="type/id symbolic, 1 data byte, optional nested stat"),
          ob("VH_C20_packet", dict(D=2), T, pkg=TYPES, covers=["done"], bounds="type/id symbolic, 2 data bytes, optional nested stat"),
          ] +
@@ -159,6 +164,10 @@ CHECKS["C06"] = dict(
     obligations=[
         ob("VH_C06_sender", dict(MAXB=1, NREQ=2), Q, covers=["valid-request", "invalid-request", "fin", "hardlink-entry"], bounds="files <=1 byte, 2 requests"),
         ob("VH_C06_eager", dict(MAXB=1), covers=["eager-request", "fin"], bounds="requests issued the moment a STAT arrives (any subset) or after the end marker (any subset), over a transport whose SendMsg returns after the peer reacted; files <=1 byte"),
+        ob("VH_C06_sender", dict(MAXB=0, NREQ=2, OPENERR=1), Q, covers=["valid-request", "invalid-request", "fin", "open-fails"], bounds="empty files, any subset of the announced files can no longer be opened when requested, 2 requests (an id is used up even if its file could not be opened)"),
+        ob("VH_C06_burst", dict(MAXB=1, NREQ=2), Q, covers=["valid-burst", "invalid-burst", "fin"], bounds="files <=1 byte, 1..2 requests sent back to back, DATA sorted by id afterwards"),
+        ob("VH_C06_sender", dict(MAXB=1, NREQ=2, OPENERR=1), T, covers=["valid-request", "invalid-request", "fin", "open-fails"], bounds="files <=1 byte, unopenable files, 2 requests"),
+        ob("VH_C06_burst", dict(MAXB=1, NREQ=3), T, covers=["valid-burst", "invalid-burst", "fin"], bounds="files <=1 byte, 1..3 requests back to back"),
         ob("VH_C06_sender", dict(MAXB=2, NREQ=3), T, covers=["valid-request", "invalid-request", "fin", "hardlink-entry"], bounds="files <=2 bytes, 3 requests"),
     ],
 )
